@@ -1,6 +1,8 @@
 """C01 - normalised export is a fixed point of import-then-export; the normal form is canonical."""
 from __future__ import annotations
 
+import re
+
 from ..common import subseed, Ctx
 from ..gen.workload import make_doc, cases
 from .. import kpx
@@ -30,6 +32,41 @@ def first_diff(a, b):
         if x != y:
             return f'line {i + 1}: {x!r} vs {y!r}'
     return 'no difference'
+
+
+RE_ACC_DISPLAY = re.compile(r'(#{1,3}|-{1,3}|n)([XijZ])')
+KEY_DISPLAY = 'chord-display-mark-after-accidental'
+
+
+def display_mark_signature(a: str, b: str) -> bool:
+    """The failure signature of the explored class: text b differs from text a only inside chord cells, and every differing chord
+    note of b is the note of a with one of the characters X i j Z doubled directly after its accidental ('4c-X 4eX' -> '4c-XX 4eX':
+    the signifier a chord note inherits from its neighbour is written right after the accidental, read back as a display mark of the
+    accidental, and inherited once more)."""
+    la, lb = a.split('\n'), b.split('\n')
+    if len(la) != len(lb):
+        return False
+    seen = False
+    for x, y in zip(la, lb):
+        if x == y:
+            continue
+        cx, cy = x.split('\t'), y.split('\t')
+        if len(cx) != len(cy):
+            return False
+        for p_, q_ in zip(cx, cy):
+            if p_ == q_:
+                continue
+            np_, nq = p_.split(' '), q_.split(' ')
+            if len(np_) < 2 or len(np_) != len(nq):
+                return False
+            for u, v in zip(np_, nq):
+                if u == v:
+                    continue
+                m = RE_ACC_DISPLAY.search(u)
+                if not m or v != u[:m.end()] + m.group(2) + u[m.end():]:
+                    return False
+                seen = True
+    return seen
 
 
 def classify(doc):
@@ -77,8 +114,10 @@ def one(ctx: Ctx, cs: int, pname=None, **over):
     else:
         y2, exc = kpx.dumps(d2)
         if exc is not None or y2 != y:
-            ctx.violation('not-a-fixed-point', f'dumps(loads(dumps(d))) != dumps(d): {first_diff(y, y2 or "")}',
-                          dict(case, export=y))
+            key = 'not-a-fixed-point'
+            if exc is None and 'chord_display_signifier_beside_accidental' in doc.tags and display_mark_signature(y, y2):
+                key = KEY_DISPLAY
+            ctx.violation(key, f'dumps(loads(dumps(d))) != dumps(d): {first_diff(y, y2 or "")}', dict(case, export=y))
     if 'separator_in_text_cell' in doc.tags:
         # lyrics / comments containing '@' or '·' (how the plain export treats them is C03's finding): only the fixed point of the
         # default export is judged on these documents - the extended format cannot carry such a cell unambiguously
@@ -106,8 +145,11 @@ def one(ctx: Ctx, cs: int, pname=None, **over):
     else:
         z2, exc = kpx.dumps(d3, encoding=kpx.Enc.eKern)
         if exc is not None or z2 != z:
-            ctx.violation('not-a-fixed-point-ekern', f'extended round trip differs: {first_diff(z, z2 or "")}',
-                          dict(case, export=z))
+            key = 'not-a-fixed-point-ekern'
+            if exc is None and 'chord_display_signifier_beside_accidental' in doc.tags and \
+                    display_mark_signature(strip_ekern(z), strip_ekern(z2)):
+                key = KEY_DISPLAY
+            ctx.violation(key, f'extended round trip differs: {first_diff(z, z2 or "")}', dict(case, export=z))
     # (3) canonicity: another spelling of the same abstract document
     if x2 != x:
         ctx.mon('canonicity_pairs')
@@ -146,7 +188,11 @@ def run(ctx: Ctx):
                        'text cells never contain the separator characters @ and · (see C03 finding)']
     n = 260 if ctx.tier == 'quick' else 1500
     for k_, cs in enumerate(cases(ctx, 'c01', n)):
-        if k_ % 12 == 7:
+        if k_ % 12 == 3:
+            # explored class (known finding): a chord with an accidental on one note and one of X i j Z on another note
+            ctx.mon('explored_chord_display_mix_documents')
+            one(ctx, cs, 'kern_only', p_chord=0.45, p_chord_display_mix=0.6, measures=(1, 3))
+        elif k_ % 12 == 7:
             one(ctx, cs, 'texty', separator_text=0.35)
         elif k_ % 6 == 5:
             # invisible barlines (=-, =3-||, =-;): whatever the export does with them (kernpy writes a null), the result is a fixed point
